@@ -810,6 +810,14 @@ Proof. intros HR. apply history_conserves_keys. exact HR. Qed.
 Lemma T_C06_all_released c ts rs w' :
   0 < cR c -> ok_run c world0 ts rs w' -> w_maps w' = ∅ -> wdks w' ++ keys_out ts rs ≡ₚ keys_in c world0 ts.
 Proof. intros HR. apply history_all_released. exact HR. Qed.
+(* exactly once, spelled out: when the key objects given are pairwise distinct (and distinct from
+   those already around), no key object is dropped twice, none is both dropped and handed back,
+   none is both still stored and dropped or handed back *)
+Lemma T_C06_never_twice c w ts rs w' :
+  0 < cR c -> WInv c w -> ok_run c w ts rs w' ->
+  NoDup (keys_in c w ts ++ wdks w ++ wheld w) -> NoDup (wdks w' ++ wheld w' ++ keys_out ts rs).
+Proof. intros HR HW Hrun Hnd. rewrite (history_conserves_keys c HR w ts rs w' HW Hrun). exact Hnd. Qed.
+
 (* what goes in: the key objects passed to insert/extend/from_iter/par_extend, and the copies that
    clone/clone_from make of the source's key objects; without clones it is a function of the calls *)
 Lemma T_C06_keys_in_static c w ts rs w' :
